@@ -156,6 +156,156 @@ def current_pins(src: Path) -> dict:
     return out
 
 
+# HELPERS the modelled behaviour relies on although they are outside the anchored functions: event delivery, the background
+# task loop, message classes consumed / emitted, state transitions used by the cycle, settings classes, the settings watcher,
+# reason strings, exceptions caught.  (file, class or None, function or '<class>' for the whole class body)
+HELPERS = [
+    ('events.py', 'EventBus', '<class>'),
+    ('events.py', None, 'on_message'), ('events.py', None, 'build_message_map'),
+    ('events.py', 'SharedDirectoryChangeEvent', '<class>'), ('events.py', 'FriendListChangedEvent', '<class>'),
+    ('events.py', 'BlockListChangedEvent', '<class>'), ('events.py', 'ScanCompleteEvent', '<class>'),
+    ('tasks.py', 'BackgroundTask', '<class>'),
+    ('exceptions.py', 'FileError', '<class>'), ('exceptions.py', 'FileNotFoundError', '<class>'),
+    ('exceptions.py', 'FileNotSharedError', '<class>'), ('exceptions.py', 'SharedDirectoryError', '<class>'),
+    ('settings.py', 'UsersSettings', '<class>'), ('settings.py', 'SharesSettings', '<class>'),
+    ('settings.py', 'SharedDirectorySettingEntry', '<class>'), ('settings.py', 'SearchReceiveSettings', '<class>'),
+    ('settings.py', None, 'translate_blocked_users'),
+    ('user/model.py', 'BlockingFlag', '<class>'),
+    ('user/manager.py', 'UserManager', '_management_job'),
+    ('shares/utils.py', None, 'normalize_remote_path'), ('shares/utils.py', None, 'create_term_pattern'),
+    ('shares/utils.py', None, 'convert_item_to_file_data'), ('shares/utils.py', None, 'convert_items_to_file_data'),
+    ('shares/model.py', 'DirectoryShareMode', '<class>'), ('shares/model.py', 'SharedItem', '__getstate__'),
+    ('shares/cache.py', 'SharesShelveCache', '<class>'), ('shares/manager.py', 'SharesManager', 'read_cache'), ('shares/manager.py', 'SharesManager', 'write_cache'),
+    ('shares/manager.py', 'SharesManager', 'load_data'),
+    ('shares/model.py', 'SharedItem', 'get_remote_directory_path_parts'), ('shares/model.py', 'SharedDirectory', 'get_remote_path'),
+    ('search/model.py', 'SearchQuery', '<class>'),
+    ('search/manager.py', 'SearchManager', '_on_excluded_search_phrases'), ('search/manager.py', 'SearchManager', '_on_file_search'),
+    ('search/manager.py', 'SearchManager', '_on_server_search_request'), ('search/manager.py', 'SearchManager', '_on_distributed_search_request'),
+    ('transfer/model.py', 'FailReason', '<class>'), ('transfer/model.py', 'AbortReason', '<class>'),
+    ('transfer/model.py', 'TransferDirection', '<class>'),
+    ('transfer/model.py', 'Transfer', '__eq__'), ('transfer/model.py', 'Transfer', 'is_upload'),
+    ('transfer/model.py', 'Transfer', 'cancel_tasks'), ('transfer/model.py', 'Transfer', 'transition'),
+    ('transfer/state.py', None, '_with_state_lock'), ('transfer/state.py', 'TransferState', 'init_from_state'),
+    ('transfer/state.py', 'VirginState', 'queue'), ('transfer/state.py', 'QueuedState', 'abort'), ('transfer/state.py', 'QueuedState', 'fail'),
+    ('transfer/state.py', 'InitializingState', 'abort'), ('transfer/state.py', 'InitializingState', 'fail'), ('transfer/state.py', 'InitializingState', 'queue'),
+    ('transfer/state.py', 'UploadingState', 'abort'), ('transfer/state.py', 'UploadingState', 'fail'),
+    ('transfer/state.py', 'IncompleteState', 'abort'), ('transfer/state.py', 'IncompleteState', 'fail'), ('transfer/state.py', 'IncompleteState', 'queue'),
+    ('transfer/state.py', 'PausedState', 'abort'), ('transfer/state.py', 'PausedState', 'fail'), ('transfer/state.py', 'PausedState', 'queue'),
+    ('transfer/state.py', 'AbortedState', 'queue'), ('transfer/state.py', 'FailedState', 'queue'), ('transfer/state.py', 'CompleteState', 'queue'),
+    ('transfer/manager.py', 'TransferManager', 'register_listeners'), ('transfer/manager.py', 'TransferManager', '_request_shares_cycle'),
+    ('transfer/manager.py', 'TransferManager', 'add'), ('transfer/manager.py', 'TransferManager', 'abort'),
+    ('transfer/manager.py', 'TransferManager', 'remove'), ('transfer/manager.py', '_RequestFlag', '<class>'),
+    ('protocol/messages.py', 'PeerTransferQueue', '<class>'), ('protocol/messages.py', 'PeerTransferQueueFailed', '<class>'),
+    ('protocol/messages.py', 'PeerTransferRequest', '<class>'), ('protocol/messages.py', 'PeerTransferReply', '<class>'),
+    ('protocol/messages.py', 'PeerSearchReply', '<class>'), ('protocol/messages.py', 'FileSearch', '<class>'),
+    ('protocol/messages.py', 'ExcludedSearchPhrases', '<class>'), ('protocol/messages.py', 'PeerSharesRequest', '<class>'),
+    ('protocol/messages.py', 'PeerSharesReply', '<class>'), ('protocol/messages.py', 'PeerDirectoryContentsRequest', '<class>'),
+    ('protocol/messages.py', 'PeerDirectoryContentsReply', '<class>'), ('protocol/messages.py', 'SharedFoldersFiles', '<class>'),
+    ('protocol/primitives.py', 'FileData', '<class>'), ('protocol/primitives.py', 'DirectoryData', '<class>'),
+]
+HELPER_PINNED = {
+    "events.py:EventBus:<class>": "b371fcbed0a9560c",
+    "events.py::on_message": "5173700ab2c456a4",
+    "events.py::build_message_map": "d65dbd546a64746a",
+    "events.py:SharedDirectoryChangeEvent:<class>": "f719a821b5b85e3f",
+    "events.py:FriendListChangedEvent:<class>": "8363980e139e39e5",
+    "events.py:BlockListChangedEvent:<class>": "0a693be26867629f",
+    "events.py:ScanCompleteEvent:<class>": "8deaf6ea4a67e7d7",
+    "tasks.py:BackgroundTask:<class>": "660c782121a8d911",
+    "exceptions.py:FileError:<class>": "616b860b42052f46",
+    "exceptions.py:FileNotFoundError:<class>": "541c3c2d03caaebd",
+    "exceptions.py:FileNotSharedError:<class>": "7682221b88a7c980",
+    "exceptions.py:SharedDirectoryError:<class>": "bacc20956ab9a1ce",
+    "settings.py:UsersSettings:<class>": "9d41ae5a665b0216",
+    "settings.py:SharesSettings:<class>": "5334a3a53df608d1",
+    "settings.py:SharedDirectorySettingEntry:<class>": "d175eca20478dea0",
+    "settings.py:SearchReceiveSettings:<class>": "5de2b37b5a5ea976",
+    "settings.py::translate_blocked_users": "f228c5be9bc7e473",
+    "user/model.py:BlockingFlag:<class>": "0df64ab028aaf8c1",
+    "user/manager.py:UserManager:_management_job": "49c6db81fb26983f",
+    "shares/utils.py::normalize_remote_path": "40bb3eef82a44659",
+    "shares/utils.py::create_term_pattern": "b596b10506ef7080",
+    "shares/utils.py::convert_item_to_file_data": "a23b05b9cbcb7961",
+    "shares/utils.py::convert_items_to_file_data": "ca3d100ac4e4ee7c",
+    "shares/model.py:DirectoryShareMode:<class>": "f5ed6402abd7d089",
+    "shares/model.py:SharedItem:__getstate__": "d85c0e36c66a20ca",
+    "shares/cache.py:SharesShelveCache:<class>": "bd77cebe18a94631",
+    "shares/manager.py:SharesManager:read_cache": "fad0a9318b445eac",
+    "shares/manager.py:SharesManager:write_cache": "42e5955bd4ae84f6",
+    "shares/manager.py:SharesManager:load_data": "3b918376385eb4bd",
+    "shares/model.py:SharedItem:get_remote_directory_path_parts": "afe1c09e82e87919",
+    "shares/model.py:SharedDirectory:get_remote_path": "5a7565009756e275",
+    "search/model.py:SearchQuery:<class>": "ec8a4b7118ee93a0",
+    "search/manager.py:SearchManager:_on_excluded_search_phrases": "3e7101f39275ff6c",
+    "search/manager.py:SearchManager:_on_file_search": "aa02a06cf4fa3ae7",
+    "search/manager.py:SearchManager:_on_server_search_request": "6b50a889ab8c6fde",
+    "search/manager.py:SearchManager:_on_distributed_search_request": "b2bea97cfc375631",
+    "transfer/model.py:FailReason:<class>": "c5460732f494b95d",
+    "transfer/model.py:AbortReason:<class>": "6f4a95d2a498a268",
+    "transfer/model.py:TransferDirection:<class>": "583105cb357b85b0",
+    "transfer/model.py:Transfer:__eq__": "7739672f9d110acd",
+    "transfer/model.py:Transfer:is_upload": "70facbf38e48d532",
+    "transfer/model.py:Transfer:cancel_tasks": "2ade513fde56d714",
+    "transfer/model.py:Transfer:transition": "28ea3f099a8f979e",
+    "transfer/state.py::_with_state_lock": "0b1cc35578005e6c",
+    "transfer/state.py:TransferState:init_from_state": "fc7210006e11dcd2",
+    "transfer/state.py:VirginState:queue": "7b896d589c6e0c5f",
+    "transfer/state.py:QueuedState:abort": "57e4deb7033150a2",
+    "transfer/state.py:QueuedState:fail": "64c5aac39982dd30",
+    "transfer/state.py:InitializingState:abort": "57e4deb7033150a2",
+    "transfer/state.py:InitializingState:fail": "64c5aac39982dd30",
+    "transfer/state.py:InitializingState:queue": "fbbe751e2e2f8959",
+    "transfer/state.py:UploadingState:abort": "23ffa03c8699bd24",
+    "transfer/state.py:UploadingState:fail": "8d34fbc420458515",
+    "transfer/state.py:IncompleteState:abort": "57e4deb7033150a2",
+    "transfer/state.py:IncompleteState:fail": "64c5aac39982dd30",
+    "transfer/state.py:IncompleteState:queue": "71e81cd7b15fb171",
+    "transfer/state.py:PausedState:abort": "57e4deb7033150a2",
+    "transfer/state.py:PausedState:fail": "64c5aac39982dd30",
+    "transfer/state.py:PausedState:queue": "71e81cd7b15fb171",
+    "transfer/state.py:AbortedState:queue": "c832f81c7bb7777b",
+    "transfer/state.py:FailedState:queue": "038876b360ff11bb",
+    "transfer/state.py:CompleteState:queue": "04db928e5f2874c3",
+    "transfer/manager.py:TransferManager:register_listeners": "16e99ff5dd0a6c8a",
+    "transfer/manager.py:TransferManager:_request_shares_cycle": "c0ba804f97c4d6fb",
+    "transfer/manager.py:TransferManager:add": "d358a291175a4632",
+    "transfer/manager.py:TransferManager:abort": "9e1e83da6477f961",
+    "transfer/manager.py:TransferManager:remove": "9922282ff99de931",
+    "transfer/manager.py:_RequestFlag:<class>": "6dfa512e9687fe7c",
+    "protocol/messages.py:PeerTransferQueue:<class>": "88766ec586d797b3",
+    "protocol/messages.py:PeerTransferQueueFailed:<class>": "3bd7d2ae62f985a8",
+    "protocol/messages.py:PeerTransferRequest:<class>": "c05c8cca6031fa01",
+    "protocol/messages.py:PeerTransferReply:<class>": "ec2cd6847de496ac",
+    "protocol/messages.py:PeerSearchReply:<class>": "d1948ae8d50e426d",
+    "protocol/messages.py:FileSearch:<class>": "191890dc592aba60",
+    "protocol/messages.py:ExcludedSearchPhrases:<class>": "533e684e5e38f6b5",
+    "protocol/messages.py:PeerSharesRequest:<class>": "2027c269ba96a34e",
+    "protocol/messages.py:PeerSharesReply:<class>": "aacae5ded1a65110",
+    "protocol/messages.py:PeerDirectoryContentsRequest:<class>": "629533ccbd6947ee",
+    "protocol/messages.py:PeerDirectoryContentsReply:<class>": "430e0a16e1f593ba",
+    "protocol/messages.py:SharedFoldersFiles:<class>": "df490cc96d8c578b",
+    "protocol/primitives.py:FileData:<class>": "f6ea2fca45251379",
+    "protocol/primitives.py:DirectoryData:<class>": "9bb69884897f4567"
+}
+
+
+def _class(tree, name):
+    c = next((n for n in ast.walk(tree) if isinstance(n, ast.ClassDef) and n.name == name), None)
+    if c is None:
+        raise Refuse(f'class {name} not found')
+    return _strip(c)
+
+
+def helper_pins(src: Path) -> dict:
+    out, trees = {}, {}
+    for (f, cls, name) in HELPERS:
+        if f not in trees:
+            trees[f] = ast.parse((src / 'aioslsk' / f).read_text())
+        node = _class(trees[f], cls) if name == '<class>' else _func(trees[f], name, cls)
+        out[f'{f}:{cls or ""}:{name}'] = fingerprint(node)
+    return out
+
+
 def field_pins(src: Path) -> dict:
     """dataclass decorator + field declarations (which fields take part in eq / hash) of SharedDirectory and SharedItem"""
     tree = ast.parse((src / 'aioslsk' / 'shares' / 'model.py').read_text())
@@ -366,6 +516,26 @@ def translate(src: Path) -> dict:
     diff = [k for k in cur if PINNED.get(k) != cur[k]]
     if diff:
         raise Refuse('source of hand-modelled functions changed (normalised-AST fingerprint): ' + ', '.join(sorted(diff)))
+    hp = helper_pins(src)
+    diff = [k for k in hp if HELPER_PINNED.get(k) != hp[k]]
+    if diff:
+        raise Refuse('source of a HELPER the model relies on changed (normalised-AST fingerprint): ' + ', '.join(sorted(diff)))
+
+    # ---- reason strings / enum values the observations are decoded with
+    tmod = ast.parse((src / 'aioslsk' / 'transfer' / 'model.py').read_text())
+
+    def consts(cls):
+        c = next(n for n in ast.walk(tmod) if isinstance(n, ast.ClassDef) and n.name == cls)
+        return {ast.unparse(st.targets[0]): st.value.value for st in c.body if isinstance(st, ast.Assign) and isinstance(st.value, ast.Constant)}
+    fr, ar, td = consts('FailReason'), consts('AbortReason'), consts('TransferDirection')
+    if (fr.get('FILE_NOT_SHARED'), fr.get('CANCELLED'), fr.get('QUEUED'), fr.get('COMPLETE')) != ('File not shared.', 'Cancelled', 'Queued', 'Complete') \
+            or ar != {'REQUESTED': 'Requested', 'BLOCKED': 'Blocked', 'FILE_NOT_SHARED': 'File not shared'} or td != {'UPLOAD': 0, 'DOWNLOAD': 1}:
+        raise Refuse(f'reason strings / direction values changed: {fr} {ar} {td}')
+    um = ast.parse((src / 'aioslsk' / 'user' / 'model.py').read_text())
+    bf = next(n for n in ast.walk(um) if isinstance(n, ast.ClassDef) and n.name == 'BlockingFlag')
+    flags = {ast.unparse(st.targets[0]): ast.unparse(st.value) for st in bf.body if isinstance(st, ast.Assign)}
+    if (flags.get('SEARCHES'), flags.get('SHARES'), flags.get('UPLOADS'), flags.get('NONE')) != ('4', '8', '32', '0') or 'ALL' not in flags:
+        raise Refuse(f'BlockingFlag values changed: {flags}')
 
     out = ['(* GENERATED by translate/tr_shares.py from shares/manager.py, shares/model.py, transfer/manager.py, search/manager.py -- do not edit *)\n',
            'From Coq Require Import List Bool.\nImport ListNotations.\n\n',
